@@ -211,6 +211,10 @@ def gen_program(rng, tier, prop):
     if rng.random() < 0.10:
         feats.add("dep")
     if rng.random() < 0.15:
+        feats.add("dep_back")      # explicit dependency AGAINST the insertion order (acyclic)
+    if rng.random() < 0.20:
+        feats.add("forward")       # consumer wired before its producer through a delayed_binding placeholder
+    if rng.random() < 0.15:
         feats.add(rng.choice(["cyc_self", "cyc_2", "cyc_long", "cyc_dep", "cyc_dep_merge"]))
     if rng.random() < 0.04:
         feats.add(rng.choice(["unbound", "rebind", "selfdep", "pushdep", "unbound_free"]))
@@ -230,6 +234,11 @@ def gen_program(rng, tier, prop):
     fb = None
     if "feedback" in feats:
         fb = add(_node(4, 0, rng.choice([1, 1, 2])))
+    ph_fwd = None
+    if "forward" in feats:
+        ph_fwd = add({"t": "place", "ty": 1})
+        ty[ph_fwd] = 1
+    fwd_users = []
     ph_free = None
     if "rankfree" in feats:
         ph_free = add({"t": "place", "ty": 1})
@@ -271,6 +280,9 @@ def gen_program(rng, tier, prop):
         if ph_free is not None and rng.random() < 0.3:
             ins.append(_inp(("d", ph_free, ()), rank=0))
             free_users.append(len(prog))
+        if ph_fwd is not None and rng.random() < 0.25:
+            ins.append(_inp(("s", (("d", ph_fwd, ()), ("d", ph_fwd, ()))) if rng.random() < 0.3 else ("d", ph_fwd, ())))
+            fwd_users.append(len(prog))
         if rng.random() < 0.2:        # explicit target path equal to the slot: same key as the implicit one
             k = rng.randrange(len(ins))
             if ins[k]["src"][0] != "s" or True:
@@ -335,6 +347,50 @@ def gen_program(rng, tier, prop):
         tgt = compute([_inp(("p", u, ())) for u in free_users], out=1)
         made.append(tgt)
         add({"t": "bind", "ph": ph_free, "ref": tgt, "path": ()})
+    def downstream(roots):
+        seen = set(roots)
+        changed = True
+        binds = {st["ph"]: st["ref"] for st in prog if st["t"] == "bind"}
+        while changed:
+            changed = False
+            for l, st in enumerate(prog):
+                if l in seen:
+                    continue
+                needs = []
+                if st["t"] == "node":
+                    for i in st["ins"]:
+                        a, b = src_refs(i["src"])
+                        needs += a + [binds[h] for h in b if h in binds] + [h for h in b if h not in binds]
+                elif st["t"] == "dep":
+                    continue
+                if any(x in seen for x in needs):
+                    seen.add(l)
+                    changed = True
+            for st in prog:
+                if st["t"] == "dep" and st["b"] in seen and st["a"] not in seen:
+                    seen.add(st["a"])
+                    changed = True
+        return seen
+    if ph_fwd is not None:
+        if not fwd_users:
+            fwd_users.append(compute([_inp(("d", ph_fwd, ()))]))
+            made.append(fwd_users[-1])
+        # the producer is wired AFTER its consumers and must not depend on them (or on the placeholder)
+        bad = downstream(fwd_users + [ph_fwd])
+        pool = [v for v in vals if v not in bad and ty[v] == 1]
+        hs, sc = _scalars(rng)
+        if pool and rng.random() < 0.7:
+            tgt = compute([_inp(("p", rng.choice(pool), ()))], out=1)
+        else:
+            tgt = add(_node(0, rng.randrange(0, 3), 1, hs, sc))
+        add({"t": "bind", "ph": ph_fwd, "ref": tgt, "path": ()})
+    if "dep_back" in feats and len(vals) >= 2:
+        for _ in range(rng.choice([1, 2, 3])):
+            a = rng.choice(vals)
+            later = [b for b in vals if b > a and prog[b]["kind"] != 3 and b not in downstream([a])]
+            if prog[a]["kind"] == 3 or not later:
+                continue
+            add({"t": "dep", "a": a, "b": rng.choice(later)})    # the earlier node must be ranked after a later one
     if "dep" in feats and len(vals) >= 2:
         for _ in range(rng.choice([1, 2])):
             a, b = sorted(rng.sample(vals, 2))
@@ -553,7 +609,10 @@ def oracle(prop, case, out):
             continue
         code, reps = o["code"], o["reps"]
         verdicts.add(code)
-        if code in (3, 4, 6, 8, 5) or reps is None:
+        if code == 5:
+            fails.append(("verdict", "order %d: wiring failed with an exception that is none of the documented rejections" % k))
+            continue
+        if code in (3, 4, 6, 8) or reps is None:
             continue     # malformed programs: the wiring statement itself is refused; nothing to rank
         rep = list(reps) + [-1] * (len(prog) - len(reps))
         nodes_l = [l for l, st in enumerate(prog) if is_node(st)]
@@ -668,6 +727,7 @@ def stats(case, out):
          "with_push_source": int(any(is_node(st) and st["kind"] == 3 for st in prog)),
          "with_structural_input": int(any(is_node(st) and any(i["src"][0] == "s" for i in st["ins"]) for st in prog)),
          "with_placeholder": int(any(st["t"] == "place" for st in prog)),
+         "with_forward_reference": int(any(is_node(st) and any(i["rank"] and src_refs(i["src"])[1] for i in st["ins"]) for st in prog)),
          "executed": 0}
     for k, o in obs.items():
         c = o["code"]
